@@ -35,6 +35,9 @@ pub struct Case {
     pub host: Host,
     pub place: Place,
     pub cons: Vec<Con>,
+    /// size hosts: write the extension marker after the SIZE element, `(SIZE(1..5), ...)`, instead of inside it
+    #[serde(default)]
+    pub outer_marker: bool,
 }
 
 const PARENT_LO: i128 = -1;
@@ -143,8 +146,16 @@ fn cons_text(cons: &[Con]) -> String {
     t.join(" ")
 }
 
-fn wrap_size(cons: &[Con]) -> Vec<Con> {
-    cons.iter().map(|c| Con::size(c.clone())).collect()
+fn wrap_size(cons: &[Con], outer_marker: bool) -> Vec<Con> {
+    cons.iter()
+        .map(|c| {
+            if outer_marker && c.ext && c.add.is_none() {
+                Con { ext: true, ..Con::size(Con { ext: false, ..c.clone() }) }
+            } else {
+                Con::size(c.clone())
+            }
+        })
+        .collect()
 }
 
 /// rewrite integer endpoints as references (`v5`, `vm1`) or named numbers (`n5`)
@@ -192,10 +203,10 @@ fn spell_refs(cons: &[Con], prefix: &str) -> Vec<Con> {
 fn case_text(i: usize, c: &Case) -> String {
     let (cons_s, base) = match c.host {
         Host::Integer => (cons_text(&c.cons), "INTEGER"),
-        Host::BitString => (cons_text(&wrap_size(&c.cons)), "BIT STRING"),
-        Host::OctetString => (cons_text(&wrap_size(&c.cons)), "OCTET STRING"),
-        Host::Ia5 => (cons_text(&wrap_size(&c.cons)), "IA5String"),
-        Host::SeqOf | Host::SetOf => (cons_text(&wrap_size(&c.cons)), ""),
+        Host::BitString => (cons_text(&wrap_size(&c.cons, c.outer_marker)), "BIT STRING"),
+        Host::OctetString => (cons_text(&wrap_size(&c.cons, c.outer_marker)), "OCTET STRING"),
+        Host::Ia5 => (cons_text(&wrap_size(&c.cons, c.outer_marker)), "IA5String"),
+        Host::SeqOf | Host::SetOf => (cons_text(&wrap_size(&c.cons, c.outer_marker)), ""),
     };
     let ty = match (c.host, c.place) {
         (Host::SeqOf, _) => format!("SEQUENCE {cons_s} OF BOOLEAN"),
@@ -504,12 +515,15 @@ fn grouping_model(c: &Case) -> Option<(Iv, bool)> {
     let mut hi: Option<i128> = None;
     let mut ext = false;
     for k in &c.cons {
+        // a marker written after the SIZE element, `(SIZE (..), ...)`, is outside the element set
+        // that an EXCEPT swallows: it survives
+        let outer = c.outer_marker && size && k.ext && k.add.is_none();
         let (v, e) = match seq_of(&k.root) {
-            None => (MVal::None, false), // ALL EXCEPT: nothing visible, marker swallowed
+            None => (MVal::None, outer), // ALL EXCEPT: nothing visible, inner marker swallowed
             Some((atoms, ops)) => {
                 let vals: Vec<MVal> = atoms.iter().map(|a| mval(a, size, None)).collect();
                 let has_except = ops.contains(&Op::Except);
-                (m_fold(&vals, &ops)?, k.ext && !has_except)
+                (m_fold(&vals, &ops)?, outer || (k.ext && !has_except))
             }
         };
         let (l, h) = match v {
@@ -701,7 +715,8 @@ fn random_case(src: &mut Src) -> Case {
     } else {
         [Place::Assignment, Place::Component][src.pick(2)]
     };
-    Case { host, place, cons }
+    let outer_marker = host != Host::Integer && src.chance(30);
+    Case { host, place, cons, outer_marker }
 }
 
 pub fn run(tier: Tier, seed: u64, replay: Option<String>) -> i32 {
@@ -745,7 +760,7 @@ pub fn run(tier: Tier, seed: u64, replay: Option<String>) -> i32 {
                     if n == 3 && place == Place::Component {
                         continue;
                     }
-                    cases.push(Case { host: Host::Integer, place, cons: vec![with_ext(e.clone(), ext)] });
+                    cases.push(Case { host: Host::Integer, place, cons: vec![with_ext(e.clone(), ext)], outer_marker: false });
                 }
             }
         }
@@ -758,7 +773,10 @@ pub fn run(tier: Tier, seed: u64, replay: Option<String>) -> i32 {
                         if n == 2 && tier == Tier::Quick && !(host == Host::OctetString || host == Host::SeqOf) {
                             continue;
                         }
-                        cases.push(Case { host, place, cons: vec![with_ext(e.clone(), ext)] });
+                        cases.push(Case { host, place, cons: vec![with_ext(e.clone(), ext)], outer_marker: false });
+                        if ext {
+                            cases.push(Case { host, place, cons: vec![with_ext(e.clone(), ext)], outer_marker: true });
+                        }
                     }
                 }
             }
@@ -769,7 +787,7 @@ pub fn run(tier: Tier, seed: u64, replay: Option<String>) -> i32 {
     for a in &ones {
         for b in &ones {
             for (ea, eb) in [(false, false), (true, false), (false, true)] {
-                cases.push(Case { host: Host::Integer, place: Place::Assignment, cons: vec![with_ext(a.clone(), ea), with_ext(b.clone(), eb)] });
+                cases.push(Case { host: Host::Integer, place: Place::Assignment, cons: vec![with_ext(a.clone(), ea), with_ext(b.clone(), eb)], outer_marker: false });
             }
         }
     }
@@ -779,7 +797,7 @@ pub fn run(tier: Tier, seed: u64, replay: Option<String>) -> i32 {
                 continue;
             }
             for place in [Place::OnParent, Place::ValueRefs, Place::NamedNumbers] {
-                cases.push(Case { host: Host::Integer, place, cons: vec![with_ext(e.clone(), false)] });
+                cases.push(Case { host: Host::Integer, place, cons: vec![with_ext(e.clone(), false)], outer_marker: false });
             }
         }
     }
